@@ -64,20 +64,26 @@ _SRC = re.compile(r"^_BOB_SOURCES\[\$LINENO\]=.*$", re.M)
 _MKTEMP = re.compile(r"^(_[A-Za-z0-9_]+)=\$\(mktemp\)$", re.M)
 
 
+GLUE = "\ncd \"${BOB_CWD}\"\n"
+
+
 def normalise_script(text):
     """the executed script without the names of the files the fragments came from: the `_BOB_SOURCES[..]=`
-    marker lines keep their position (fragment boundaries) but lose the recipe / class name, the temporary file
-    variables of `$<<file>>` includes (named after the recipe / class) are renumbered in order of appearance"""
-    text = _SRC.sub("_BOB_SOURCES=#", text)
-    names = []
-    for m in _MKTEMP.finditer(text):
-        if m.group(1) not in names:
-            names.append(m.group(1))
-    # longest first so that a name that is a prefix of another one is not replaced inside it
-    for n in sorted(names, key=len, reverse=True):
-        i = names.index(n)
-        text = re.sub(re.escape(n) + r"(?![A-Za-z0-9_])", "_INC%d#" % i, text)
-    return text
+    marker lines keep their position (fragment boundaries) but lose the recipe / class name; the temporary file
+    variables of `$<<file>>` includes (named after the recipe / class, numbered per fragment) are renumbered per
+    fragment in order of appearance"""
+    out = []
+    for frag in text.split(GLUE):
+        frag = _SRC.sub("_BOB_SOURCES=#", frag)
+        names = []
+        for m in _MKTEMP.finditer(frag):
+            if m.group(1) not in names:
+                names.append(m.group(1))
+        # longest first so that a name that is a prefix of another one is not replaced inside it
+        for n in sorted(names, key=len, reverse=True):
+            frag = re.sub(re.escape(n) + r"(?![A-Za-z0-9_])", "_INC%d#" % names.index(n), frag)
+        out.append(frag)
+    return GLUE.join(out)
 
 
 def scm_sem(props):
